@@ -136,10 +136,10 @@ def c07(tier):
             verdict.violation(problem[:200], dict(property=pid, items=c["seq"], source=c["_src"], defines=["A=1", "B=0"], expected=dict(kept=c["kept"], z=c["z"], err=c["err"]),
                                                   observed={k: o.get(k) for k in ("status", "err", "text", "macros")}, problem=problem))
         if i in tr and "events" in o:
-            events.append(dict(kind="begin", before="", after="", depth=0, emitted=0, case=i, line=0))
+            events.append(dict(kind="begin", before="", after="", depth=0, emitted=0, case=i, line=0, first=0))
             for e in o["events"]:
                 if e["file"] == "main.c":
-                    events.append(dict(kind=e["kind"], before=e["before"], after=e["after"], depth=e["depth"], emitted=e["emitted"], case=i, line=e["line"]))
+                    events.append(dict(kind=e["kind"], before=e["before"], after=e["after"], depth=e["depth"], emitted=e["emitted"], case=i, line=e["line"], first=e["first"]))
     if kept_some < 50 or dropped_some < 50:
         raise common.ToolError("vacuous: kept_some=%d dropped_some=%d" % (kept_some, dropped_some))
     # ---- trace validation of the hook events against CppImpl (Layer 2): drift, not a verdict on the property
@@ -242,6 +242,13 @@ def render_error_item(e):
         "too_many_args": ["void g0() { }", "void fe() {", "  g0(1);", "}"],
         "subscript_scalar": ["char scv;", "void fe() {", "  scv[1] = 2;", "}"],
         "bad_init": ["char bi = 3;"],
+        "unknown_id0": ["void fe() {", "zz = 1;", "}"],
+        "unknown_func0": ["void fe() {", "nofn();", "}"],
+        "break_outside0": ["void fe() {", "break;", "}"],
+        "subscript_scalar0": ["char scv;", "void fe() {", "scv[1] = 2;", "}"],
+        "too_many_args0": ["void g0() { }", "void fe() {", "g0(1);", "}"],
+        "wrong_return0": ["void fe() {", "return 3;", "}"],
+        "pest0": ["char okq;", "9bad;"],
     }[k]
 
 
@@ -374,6 +381,10 @@ def render_lit(c):
         return pro + 'char q0; const char *v0 = "%s"; // trailing "comment" /* x */\nvoid main() { }\n' % raw
     if k == "inif":
         return pro + '#if 1\nconst char *v0 = "%s";\n#endif\nvoid main() { }\n' % raw
+    if k == "afterskipped":     # a literal in an unselected region must not disturb the literals that follow
+        return pro + '#if 0\nconst char *u0 = "skipped %s";\n#endif\nconst char *v0 = "%s";\nvoid main() { }\n' % (raw, raw)
+    if k == "afterelse":
+        return pro + '#ifdef MAC\nconst char *v0 = "%s";\n#else\nconst char *v0 = "other";\nconst char *w0 = "more";\n#endif\nconst char *z0 = "tail";\nvoid main() { }\n' % raw
     if k == "charconst":
         return pro + "const char c0 = '%s';\nvoid main() { }\n" % raw
     raise ValueError(k)
@@ -390,8 +401,11 @@ def observe_lit(c, o):
     """-> (observed bytes list or None, note)"""
     k = c["ctx"]
     vs = o["vars"]
-    if k in ("init", "concat", "aftercode", "inif"):
+    if k in ("init", "concat", "aftercode", "inif", "afterskipped"):
         return arr_of(vs, "v0")
+    if k == "afterelse":
+        z = arr_of(vs, "z0")
+        return arr_of(vs, "v0") if z == [116, 97, 105, 108, 0] else ["z0 holds", z]
     if k == "twoline":
         a, b = arr_of(vs, "v0"), arr_of(vs, "w0")
         return a if a == b else ["v0/w0 differ", a, b]
